@@ -156,6 +156,48 @@ def run (args : List String) : Option String :=
     let q ← parseBBox? l b r t
     pure (withGrid g fun g =>
       s!"{fmtRes (fun (a, b, c, d) => s!"{a} {b} {c} {d}") (g.idxBoundsChecked fl tol8 same q)} {fmtRes (fmtList fmtIdx) (g.tilesChecked fl tol8 same q)}")
+  -- `gs1 == gs2`
+  | ["eq", m, ny, nx, rx, ry, ox, oy, fx, fy, ny2, nx2, rx2, ry2, ox2, oy2, fx2, fy2, crsEq] => do
+    let fl ← parseMode? m
+    let g ← parseGrid? fl ny nx rx ry ox oy fx fy
+    let h ← parseGrid? fl ny2 nx2 rx2 ry2 ox2 oy2 fx2 fy2
+    let c ← parseBool? crsEq
+    pure (withGrid g fun g => withGrid h fun h => fmtBool (g.beq h c))
+  | ["align", m, ny, nx, rx, ry, ox, oy, fx, fy] => do
+    let fl ← parseMode? m
+    let g ← parseGrid? fl ny nx rx ry ox oy fx fy
+    pure (withGrid g fun g => fmtRes (fun (p : Rat × Rat) => s!"{fmtRat p.1} {fmtRat p.2}") (g.alignment fl))
+  -- geojson index walk: `B l b r t` | `P [pts]` | `PB [pts] l b r t` (both arguments given)
+  | "gj" :: m :: ny :: nx :: rx :: ry :: ox :: oy :: fx :: fy :: rest => do
+    let fl ← parseMode? m
+    let g ← parseGrid? fl ny nx rx ry ox oy fx fy
+    match g with
+    | .error e => pure e.toStr
+    | .ok g =>
+      let polyArg (pts : String) : Option (BBox × (GeoBox → Bool)) := do
+        let ps ← parseList? parsePt? pts
+        let q ← ptsBounds ps
+        pure (q, fun gb => Spec.Convex.disjoint ps (gb.extentPts fl))
+      match rest with
+      | ["B", l, b, r, t] => do
+        let q ← parseBBox? l b r t
+        (g.geojsonIdx fl tol8 (some q) none).map (fmtList fmtIdx)
+      | ["P", pts] => do
+        let p ← polyArg pts
+        (g.geojsonIdx fl tol8 none (some p)).map (fmtList fmtIdx)
+      | ["PB", pts, l, b, r, t] => do
+        let p ← polyArg pts
+        let q ← parseBBox? l b r t
+        (g.geojsonIdx fl tol8 (some q) (some p)).map (fmtList fmtIdx)
+      | _ => none
+  -- multi-part geometry: convex parts separated by `|`, `-` for the empty geometry
+  | ["mpoly", m, ny, nx, rx, ry, ox, oy, fx, fy, parts] => do
+    let fl ← parseMode? m
+    let g ← parseGrid? fl ny nx rx ry ox oy fx fy
+    let rings ← if parts = "-" then some [] else (parts.splitOn "|").mapM (parseList? parsePt?)
+    let ps ← rings.mapM (fun ring => (ptsBounds ring).map (fun q =>
+      ((q, fun (gb : GeoBox) => Spec.Convex.disjoint ring (gb.extentPts fl)) : BBox × (GeoBox → Bool))))
+    pure (withGrid g fun g => fmtRes (fmtList fmtIdx) (g.tilesFromMulti fl tol8 ps))
   -- multi-step history over one shared geobox_cache; output: result of every step, then the cache keys
   | "hist" :: m :: ny :: nx :: rx :: ry :: ox :: oy :: fx :: fy :: steps => do
     let fl ← parseMode? m
